@@ -8,7 +8,8 @@
              HypergraphMT.fit decided by TLC on flags / integers (Trace_C17); the log-likelihood at the returned
              parameters recomputed from its definition with brute-force e_d in Python.
              Inputs: weights absent / whole / non-integer (0.5, 1.25, ...); in a quarter of the configurations the observed
-             model OBJECT has been fitted before on another hypergraph with the same N and K (buffers kept between fits).
+             model OBJECT has been fitted before on another hypergraph with the same N and K (buffers kept between fits); in part
+             of those the earlier fit FAILED after training (unwritable output folder / interrupted) and the error was caught.
 """
 import itertools
 import json
@@ -144,6 +145,31 @@ def config(rng, i, tier):
         if pw is not None:
             rng.shuffle(pw)
         cfg["refit_after"] = {"edges": pe, "weights": pw, "seed": rng.randrange(1, 10 ** 6)}
+        # ... and in some of them that earlier fit FAILED after training and the caller went on with the object: the results
+        # could not be written (out_inference=True with a folder that cannot exist), or the fit was interrupted in a later
+        # realisation.  What the aborted fit left behind (its best log-likelihood, its parameters) must not reach the next fit;
+        # it would win when the earlier data were easier, so the earlier hypergraph is often a part of the observed one
+        # (fewer hyperedges: larger log-likelihood) and the earlier fit uses the seed of the observed one
+        if rng.random() < 0.45:
+            prev = cfg["refit_after"]
+            prev["failed"] = rng.choice(["output", "output", "interrupt"])
+            r = rng.random()
+            if r < 0.6:
+                keep = [j for j in range(len(edges)) if rng.random() < 0.5]
+                sub = [edges[j] for j in keep]
+                sw = None if weights is None else [weights[j] for j in keep]
+                for j in rng.sample(range(len(edges)), len(edges)):
+                    if len({n for e in sub for n in e}) >= K + 1:
+                        break
+                    if edges[j] not in sub:
+                        sub.append(edges[j])
+                        if sw is not None:
+                            sw.append(weights[j])
+                prev["edges"], prev["weights"] = sub, sw
+            if r < 0.8:
+                prev["seed"] = cfg["seed"]
+            if prev["failed"] == "interrupt" and cfg["n_realizations"] == 1:
+                cfg["n_realizations"] = 2
     return cfg
 
 
@@ -168,14 +194,28 @@ def cond_bound(u, w):
     return 1e-12 * tot
 
 
+class Interrupted(Exception):
+    """raised by the observer inside an EARLIER fit of a model object (stands for Ctrl-C / a time limit of the caller)"""
+
+
+UNWRITABLE = "/dev/null/c17-no-such-folder/"      # below a character device: no implementation can create or write it
+
+
 def probe_class():
     """HypergraphMT observed from inside fit(): every evaluation of the log-likelihood is recorded together with the
     rounding bound of the parameters at that moment (the table itself has no access to them)"""
     from hypergraphx.communities.hypergraph_mt.model import HypergraphMT
 
     class Probe(HypergraphMT):
+        verif_abort_at = None                # interrupt the fit at the n-th evaluation of the log-likelihood
+        verif_calls = 0
+
         def _LogLikelihood(self, *a, **k):
             v = super()._LogLikelihood(*a, **k)
+            self.verif_calls += 1
+            if self.verif_abort_at is not None and self.verif_calls == self.verif_abort_at:
+                self.verif_abort_at = None
+                raise Interrupted("fit interrupted by the caller (evaluation %d of the log-likelihood)" % self.verif_calls)
             try:
                 u_, w_ = np.asarray(self.u), np.asarray(self.w)
                 # a logged hyperedge with rate 0 (memberships truncated to 0): the log-likelihood is -inf by definition and the
@@ -190,7 +230,9 @@ def probe_class():
 
 
 def fit_mt(cfg, h, probe=False, edges_rows=(), global_offset=0, before=None):
-    """before = (hypergraph, seed): the SAME model object is first fitted on that hypergraph; what is observed is its next fit"""
+    """before = (hypergraph, seed, failed): the SAME model object is first fitted on that hypergraph; what is observed is its next
+    fit.  failed = "output": that fit is asked to write its results into a folder that cannot exist (it raises after training);
+    "interrupt": it is interrupted in a realisation after the first (observer only); the caller catches the error and goes on"""
     from hypergraphx.communities.hypergraph_mt.model import HypergraphMT
     if probe:
         HypergraphMT = probe_class()
@@ -203,7 +245,19 @@ def fit_mt(cfg, h, probe=False, edges_rows=(), global_offset=0, before=None):
                      check_convergence_every=cfg["every"], min_value_par=cfg["min_value_par"])
     if before is not None:
         m.verif_cond, m.verif_edges = [], []
-        m.fit(before[0], K=cfg["K"], seed=before[1], normalizeU=cfg["normalizeU"], baseline_r0=cfg["baseline_r0"])
+        kw = {}
+        if before[2] == "output":
+            kw = {"out_inference": True, "out_folder": UNWRITABLE}
+        elif before[2] == "interrupt" and probe:
+            # evaluations per realisation <= ceil(max_iter / every): this one falls into a later realisation (or nowhere)
+            m.verif_abort_at = -(-cfg["max_iter"] // cfg["every"]) + 1
+        try:
+            m.fit(before[0], K=cfg["K"], seed=before[1], normalizeU=cfg["normalizeU"], baseline_r0=cfg["baseline_r0"], **kw)
+        except Exception:
+            if not before[2]:
+                raise
+        if probe:
+            m.verif_abort_at = None
     if hk is not None:
         del hk.EVENTS[:]
     m.verif_cond, m.verif_edges = [], list(edges_rows)
@@ -253,7 +307,7 @@ def observe(cfg, idx):
     with quiet():
         try:
             E_rows = [tuple(int(r) for r in inc[:, [j]].nonzero()[0]) for j in range(inc.shape[1])]
-            m, u, w, L, ev = fit_mt(cfg, h, probe=True, edges_rows=E_rows, before=(h_prev, prev["seed"]) if prev else None)
+            m, u, w, L, ev = fit_mt(cfg, h, probe=True, edges_rows=E_rows, before=(h_prev, prev["seed"], prev.get("failed")) if prev else None)
             m2, u2, w2, L2, _ = fit_mt(cfg, h, global_offset=1)
         except Exception as ex:
             info["raised"].append(("HypergraphMT.fit", repr(ex)))
@@ -395,7 +449,8 @@ def validate(res, tier, rng, only=None):
     def hist(sig, cfg):
         # the history of the model object is part of the signature: a fault that needs a re-used object is another finding
         if cfg.get("refit_after"):
-            sig["history"] = "model object fitted before"
+            sig["history"] = ("model object's previous fit failed after training" if cfg["refit_after"].get("failed")
+                              else "model object fitted before")
         return sig
     for i, info in enumerate(infos):
         if info["raised"]:
@@ -445,6 +500,7 @@ def validate(res, tier, rng, only=None):
             loglik_definition_checked=sum(1 for c in cases if "lldef" in c),
             with_isolated_nodes=sum(1 for c in cfgs if c["N"] > len({n for e in c["edges"] for n in e})),
             model_object_fitted_before=sum(1 for c in cfgs if c.get("refit_after")),
+            model_object_previous_fit_failed=sum(1 for c in cfgs if c.get("refit_after") and c["refit_after"].get("failed")),
             non_integer_weights=sum(1 for c in cfgs if c["weights"] and any(x != int(x) for x in c["weights"])),
             hooks_installed=hooks() is not None, validator_selftests=len(selfc) + len(selft))
     if traces:
@@ -481,7 +537,9 @@ def run(tier, seed):
         "weights are absent, whole numbers 1..3 or dyadic non-integers (0.5 .. 2.5); the definition is evaluated with the weights get_weights() reports",
         "in a quarter of the configurations the observed HySC / HypergraphMT object has been fitted before on another hypergraph with the same number "
         "of nodes and the same K (fit is a function of its arguments: the statement has no clause about the model object's past); its output is "
-        "judged like any other and must be identical to that of a fresh object with the same seed")
+        "judged like any other and must be identical to that of a fresh object with the same seed; in part of them that earlier fit ended "
+        "in an error AFTER training (results to be written into a folder that cannot exist, or an interruption raised by the observer in a "
+        "later realisation) which the caller caught before fitting again")
     return res.finish()
 
 
